@@ -78,9 +78,14 @@ class Skip(Exception):
     pass
 
 
+EMPTY_TEXT = '=""'      # a formula cell that evaluates to the empty text: a text cell, not a blank one
+
+
 def ckind(v):
     if v is None:
         return 'blank'
+    if v == EMPTY_TEXT:
+        return 'emptytext'
     if isinstance(v, bool):
         return 'bool'
     if isinstance(v, (int, float)):
@@ -93,6 +98,12 @@ def accepts(crit, v):
     form, k = crit['form'], ckind(v)
     if k == 'bool':
         raise Skip('boolean cell')
+    if k == 'emptytext':
+        # a text like any other under a numeric criterion (never a number: only <> accepts it); under text criteria and
+        # patterns the statement is silent about the empty text
+        if form in ('num', 'eq-num', 'op-num', 'amp-num'):
+            return crit.get('op', '=') == '<>'
+        raise Skip('empty text under a text criterion')
     if form in ('num', 'eq-num', 'op-num', 'amp-num'):
         if k == 'blank':
             raise Skip('blank under numeric criterion')
@@ -317,11 +328,11 @@ def strategy():
     @st.composite
     def spec(draw):
         height = draw(st.integers(3, 10))
-        flavours = draw(st.lists(st.sampled_from(['num', 'num', 'text', 'text', 'mixed', 'num+blank', 'text+blank']), min_size=1, max_size=3))
+        flavours = draw(st.lists(st.sampled_from(['num', 'num', 'text', 'text', 'mixed', 'num+blank', 'text+blank', 'num+emptytext']), min_size=1, max_size=3))
         cols = []
         for fl in flavours:
             cellst = {'num': num, 'text': word, 'mixed': st.one_of(num, word), 'num+blank': st.one_of(num, num, st.none()),
-                      'text+blank': st.one_of(word, word, st.none())}[fl]
+                      'text+blank': st.one_of(word, word, st.none()), 'num+emptytext': st.one_of(num, num, num, st.just(EMPTY_TEXT))}[fl]
             cols.append([draw(cellst) for _ in range(height)])
         ncrit = len(cols)
         target = ncrit
@@ -335,7 +346,7 @@ def strategy():
             present_nums = [v for v in col if ckind(v) == 'num']
             present_txt = [v for v in col if ckind(v) == 'text']
             choices = []
-            if fl in ('num', 'mixed', 'num+blank'):
+            if fl in ('num', 'mixed', 'num+blank', 'num+emptytext'):
                 n = draw(st.one_of(st.sampled_from(present_nums) if present_nums else num, num))
                 via = draw(st.sampled_from(['lit', 'lit', 'cell']))
                 choices += [{'form': 'num', 'value': n, 'via': via}] * 2
